@@ -485,9 +485,36 @@ def _RR(sh: Shape) -> Any:
     return _RRS[sh.name]
 
 
+KEEP_STATE = False  # read_sequence: the Adj-RIB-In and the handlers keep what earlier messages of the sequence left
+
+
 def _peer_context(sh: Shape) -> Any:
-    sh.neighbor.rib.incoming.clear() if hasattr(sh.neighbor.rib.incoming, 'clear') else None
+    if not KEEP_STATE:
+        sh.neighbor.rib.incoming.clear() if hasattr(sh.neighbor.rib.incoming, 'clear') else None
     return PeerContext(proto=sh.proto, neighbor=sh.neighbor, negotiated=sh.neg, refresh_enhanced=True, routes_per_iteration=25, peer_id='c03', stats=sh.peer.stats)
+
+
+def read_sequence(sh: Shape, msgs: list[tuple[int, bytes]]) -> list[Outcome]:
+    """The messages of one ESTABLISHED session in order, through the real Protocol.read_message and the real handlers of
+    the peer loop, on ONE Adj-RIB-In and one set of handler objects (what a handler keeps between messages — a
+    route-refresh in progress, the routes received so far — is there for the next message).  A fresh RIB and fresh
+    handlers at the start; stops at the first message that ends the session."""
+    global KEEP_STATE
+    sh.neighbor.rib.incoming.clear()
+    _RRS.pop(sh.name, None)
+    outs = []
+    KEEP_STATE = True
+    try:
+        for ty, body in msgs:
+            o = read_message(sh, ty, body)
+            outs.append(o)
+            if o.cls != 'decoded':
+                break
+    finally:
+        KEEP_STATE = False
+        sh.neighbor.rib.incoming.clear()
+        _RRS.pop(sh.name, None)
+    return outs
 
 
 def read_message(sh: Shape, ty: int, body: bytes, via: str = 'read_message', measure: bool = False, fast: bool = False, scale: float = 1.0) -> Outcome:
